@@ -474,6 +474,13 @@ func (t *TriDense) Copy(a Matrix) (r, c int) {
 				t.set(i, i, amat.Data[i*amat.Stride+i])
 			}
 		}
+		if amat.Diag == blas.Unit {
+			// The stored diagonal of a unit
+			// triangular matrix is not referenced.
+			for i := 0; i < r; i++ {
+				t.set(i, i, 1)
+			}
+		}
 	default:
 		// The elements are copied one at a time, so a source sharing
 		// memory with the receiver may be read after it was written.
@@ -620,6 +627,10 @@ func (t *TriDense) ScaleTri(f float64, a Triangular) {
 				for i, v := range as {
 					ts[i] = v * f
 				}
+				if amat.Diag == blas.Unit {
+					// The stored diagonal is not referenced.
+					ts[0] = f
+				}
 			}
 			return
 		}
@@ -628,6 +639,10 @@ func (t *TriDense) ScaleTri(f float64, a Triangular) {
 			as := amat.Data[i*amat.Stride : i*amat.Stride+i+1]
 			for i, v := range as {
 				ts[i] = v * f
+			}
+			if amat.Diag == blas.Unit {
+				// The stored diagonal is not referenced.
+				ts[i] = f
 			}
 		}
 		return
